@@ -30,11 +30,11 @@ type SPos struct {
 
 // PPos is the predicate position of a clause.
 type PPos struct {
-	Pred     *model.PredSpec `json:"pred,omitempty"`   // "id"@[] or "id"@[T]
-	AnchorID string          `json:"aid,omitempty"`    // "id"@[?t]
-	AnchorB  string          `json:"ab,omitempty"`     //   the ?t
-	Bound    *Bound          `json:"bound,omitempty"`  // "id"@[lo,hi]
-	Binding  string          `json:"b,omitempty"`      // ?p
+	Pred     *model.PredSpec `json:"pred,omitempty"`  // "id"@[] or "id"@[T]
+	AnchorID string          `json:"aid,omitempty"`   // "id"@[?t]
+	AnchorB  string          `json:"ab,omitempty"`    //   the ?t
+	Bound    *Bound          `json:"bound,omitempty"` // "id"@[lo,hi]
+	Binding  string          `json:"b,omitempty"`     // ?p
 	As       string          `json:"as,omitempty"`
 	IDAlias  string          `json:"id,omitempty"`
 	At       string          `json:"at,omitempty"`
